@@ -660,7 +660,12 @@ Proof. unfold ex_cap. destruct (g_ex_max g =? 0); [lia|]. destruct (Z.ltb_spec (
 
 Lemma ex_inv_new g : ex_inv (new_hist g) [].
 Proof.
-  constructor; cbn; try reflexivity; try (intros x []); [apply ex_cap_nonneg|]. intros _ e E. discriminate.
+  constructor; cbn [new_hist h_ex h_cfg].
+  - apply ex_cap_nonneg.
+  - reflexivity.
+  - intros x [].
+  - intros x [].
+  - intros _ e E. discriminate.
 Qed.
 
 Lemma ex_inv_frame h h' exs : frame h h' -> ex_inv h exs -> ex_inv h' exs.
@@ -692,7 +697,7 @@ Proof.
     destruct (write_frame h h' w W) as [F Ew]. split; [apply (ex_inv_frame h h' exs F X)|]. split; [apply F|].
     intros w0 Hw. inversion Hw. subst. exact Ew.
   - inversion E. subst. split; [|split; [reflexivity|intros w Hw; discriminate]].
-    apply (ex_inv_frame h _ exs); [repeat split|exact X].
+    destruct X as [X1 X2 X3 X4 X5]. constructor; cbn [h_ex h_cfg]; assumption.
   - destruct (h_sched h).
     + destruct (timer_reset h) as [h1|] eqn:T; [|discriminate]. inversion E. subst.
       pose proof (timer_reset_frame h h' T) as F. split; [apply (ex_inv_frame h h' exs F X)|]. split; [apply F|intros w Hw; discriminate].
